@@ -29,7 +29,9 @@ TEXT = {
     "gA": "message A", "gB": "message, B", "gC": 'message "C"', "gF": "message F",
 }
 TOKENS = {"DQ": '"', "COMMA": ",", "NL": "\n", "CR": "\r", "SP": " ", "NA": "NA", "NUM": "1e5", "A": "a", "SEMI": ";"}
-NOC = {"model": "none", "data": "none", "hash": "none", "res": "none", "name": "none", "desc": "none"}
+NOC = {"model": "none", "data": "none", "hash": "none", "res": "none", "rlog": [], "name": "none", "desc": "none"}
+LOG_LEN = {"m1": 11, "m2": 14, "m3": 1}  # entries of the log inside the stored modelfit results (LogLenOfDef in ModelDBAbs.tla)
+FRESH_LOG_LEN = (0, 1, 10, 11, 14)      # fidelity cases cycle through these
 
 _W = {}  # world: models, keys, results (built once in the parent, inherited by forks)
 
@@ -56,13 +58,25 @@ def world(repo):
     _W["models"] = {"m1": m1, "m2": m2, "m3": m3}
     _W["keys"] = {k: str(ModelHash(v)) for k, v in _W["models"].items()}
     _W["dhash"] = {k: ModelHash(v).dataset_hash for k, v in _W["models"].items()}
+    from pharmpy.workflows import Log
+    from pharmpy.workflows.log import LogEntry
+    import datetime
+
+    def mklog(tag, n):
+        t0 = datetime.datetime(2024, 1, 1, 12, 0, 0)
+        return Log(tuple(LogEntry(category="WARNING" if i % 3 else "ERROR", message=f"{tag}: entry {i} of the results log",
+                                  time=t0 + datetime.timedelta(seconds=i)) for i in range(n)))
+
+    # m1 and m3 have the same code, parameters and datainfo and differ ONLY in dataset values; their results differ
     _W["res"] = {
-        k: ModelfitResults(ofv=100.0 + i, parameter_estimates=pd.Series({p0: 0.25 * (i + 1)}), warnings=[])
+        k: ModelfitResults(ofv=100.0 + i, parameter_estimates=pd.Series({p0: 0.25 * (i + 1)}), warnings=[], log=mklog(k, LOG_LEN[k]))
         for i, k in enumerate(("m1", "m2", "m3"))
     }
+    _W["res_fresh"] = {n: ModelfitResults(ofv=100.0, parameter_estimates=pd.Series({p0: 0.25}), warnings=[], log=mklog("m1", n))
+                       for n in FRESH_LOG_LEN}
     _W["p0"] = p0
     _W["fresh"] = 0
-    assert len(set(_W["keys"].values())) == 3 and _W["dhash"]["m1"] == _W["dhash"]["m2"] != _W["dhash"]["m3"]
+    # no assertion on the keys: colliding keys are a defect of the code under test, to be judged by the check
     return _W
 
 
@@ -165,7 +179,21 @@ def project_entry(me, tok):
                     res = k
             except Exception:
                 pass
-    return {"model": which, "data": data, "hash": hk[0] if hk else "other", "res": res,
+    # the log that belongs to the stored results: position of every retrieved (category, message) in the stored log
+    rlog = []
+    try:
+        lg = me.log if me.log is not None else (r.log if r is not None else None)
+        stored = w.get("stored_log")
+        if stored is None and res in w["res"]:
+            stored = w["res"][res].log
+        ref = [(e.category, e.message) for e in stored] if stored is not None else []
+        for e in (lg if lg is not None else ()):
+            rlog.append(ref.index((e.category, e.message)) + 1 if (e.category, e.message) in ref else 0)
+        if r is not None and r.log is not None and lg is not None and [(e.category, e.message) for e in r.log] != [(e.category, e.message) for e in lg]:
+            rlog.append(0)  # ModelEntry.log and ModelfitResults.log of one retrieved entry must agree
+    except Exception:
+        rlog = [0]
+    return {"model": which, "data": data, "hash": hk[0] if hk else "other", "res": res, "rlog": rlog,
             "name": text_id(model.name, tok), "desc": text_id(model.description, tok)}
 
 
@@ -197,10 +225,15 @@ def do_op(ctx, op, tok=False, fresh=0):
                 base = set_initial_estimates(base, {w["p0"]: 0.0041 + 1e-6 * fresh})
                 w["fresh_model"] = base
             ev.setdefault("troublesome", bool(tok))
+            results = w["res"][op["m"]]
+            if fresh:
+                results = w["res_fresh"][FRESH_LOG_LEN[fresh % len(FRESH_LOG_LEN)]]
+                w["stored_log"] = results.log
+            ev["nlog"] = len(results.log)
             ev["stage"] = "build"
             m = base.replace(name=text_of(op["n"]), description=text_of(op["d"]))
             ev["stage"] = "store"
-            ctx.store_model_entry(ModelEntry.create(m, modelfit_results=w["res"][op["m"]]))
+            ctx.store_model_entry(ModelEntry.create(m, modelfit_results=results))
             ev.pop("stage")
         elif kind == "Retrieve":
             ev["c"] = NOC
